@@ -295,7 +295,9 @@ func (w *World) open() {
 	moss.VerifMarkGate(w.coll)
 	// The first two threads spawned by Start are the merger and the persister.
 	w.merger, w.persister = nil, nil
-	if w.s.NumThreads() >= before+3 {
+	if w.cfg.ReadOnly {
+		// a read-only collection starts no merger and no persister
+	} else if w.s.NumThreads() >= before+3 {
 		w.merger, w.persister = w.s.Thread(before+1), w.s.Thread(before+2)
 		w.mains[w.merger.ID], w.mains[w.persister.ID] = true, true
 	} else {
@@ -305,8 +307,10 @@ func (w *World) open() {
 	w.closedColl, w.closedStore = false, false
 	w.inGate, w.gateFlag = false, false
 	w.obsMerger, w.obsPersister = nil, nil
-	w.run(w.merger)
-	w.run(w.persister)
+	if w.merger != nil {
+		w.run(w.merger)
+		w.run(w.persister)
+	}
 	w.settle()
 }
 
